@@ -319,6 +319,32 @@ class Scan:
         raise ValueError(k)
 
 
+def binds_self(params, body):
+    """the formula has a parameter, local variable, nested function, lambda parameter or comprehension variable named
+    `self`: outside the export subset (Export/Model.v no_self, Run.v stbl_okb); export refuses the model"""
+    def bound(e):
+        if not isinstance(e, list) or not e:
+            return []
+        k = e[0]
+        out = []
+        if k == "lam":
+            out += e[1]
+        elif k == "comp":
+            out.append(e[3])
+        elif k == "let":
+            out.append(e[1])
+        elif k == "def":
+            out += [e[1]] + list(e[2])
+        for x in e[1:]:
+            if isinstance(x, list):
+                out += bound(x) if (x and isinstance(x[0], str) and x[0] in NODE_KINDS) else [b for y in x for b in bound(y)]
+        return out
+    return "self" in list(params) + bound(body)
+
+
+NODE_KINDS = ("int", "none", "name", "attr", "bin", "if", "call", "sub", "lam", "list", "comp", "let", "def")
+
+
 def would_replace(x, top, builtins):
     return x in top or x not in builtins
 
@@ -328,8 +354,7 @@ def triggers(params, body, top, builtins):
     top = names assigned at module level of the source given to FormulaTransformer"""
     s = Scan(params, body)
     out = set(s.flags)
-    if "self" in s.names:
-        out.add("self_name")
+    # self_local: repaired in /repo (export refuses a formula that binds `self`: binds_self below, props/C15.py expects the refusal)
     # D29: a keyword-argument name that the symbol table of its scope lists as a replaced global
     for n, cur, sc in s.kwnames:
         b = s.scopes[cur]["bearer"]
@@ -400,6 +425,7 @@ ATTR_NAMED = {"value": ["ienum", "senum"], "real": ["ienum", "num", "rate", "xfl
 MODEL_LIT_REFS = ["ghs", "grt", "gcd"]
 PROBE_NAMES = ["pr1", "pr2", "pr3"]
 ARITH = ["Add", "Add", "Sub", "Mul"]
+P_SELF = 0.002      # chance that a fresh local / parameter is named `self` (about 3 models in 100 are then refused by export)
 
 
 class Gen:
@@ -423,6 +449,8 @@ class Gen:
             if cand:
                 return r.choice(cand)
         cand = [n for n in LOCALS if n not in avoid]
+        if "self" not in avoid and r.random() < P_SELF:
+            return "self"       # self_local, repaired in /repo: a model with such a formula must be refused by export
         return r.choice(cand)
 
     def g_int(self, ctx, d, budget):
